@@ -360,4 +360,165 @@ theorem activateRun_eq (s : State) (p : Proposal) : activateRun s p = activate s
   | none => cases he : p.expedited <;> simp
   | some c => simp
 
+/-- the one-piece form of `dropInactive` the invariants are proved about -/
+def dropInactiveSpec (pid : Nat) (s : State) : Except Err State :=
+  match findProp s.props pid with
+  | none => .error (.halt "inactive queue: proposal not found")
+  | some p =>
+    let s1 := { s with props := dropProp s.props pid,
+                       inactive := removeQ (p.depositEnd, pid) s.inactive,
+                       active := removeQ (p.votingEnd, pid) s.active }
+    if inactiveSettleShapeOk then
+      if !s.params.burnPrevote then refundDeposits pid s1 else burnDeposits pid s1
+    else .ok s1
+
+/-- **the inactive-queue step of the end-blocker — `DeleteProposal`, then `RefundAndDeleteDeposits` or
+`DeleteAndBurnDeposits`, all three interpreted from the SDK's statement lists — is the one-piece form** -/
+theorem dropInactive_eq (pid : Nat) (s : State) : dropInactive pid s = dropInactiveSpec pid s := by
+  unfold dropInactive dropInactiveSpec
+  cases hp : findProp s.props pid with
+  | none => rfl
+  | some p =>
+    simp only [deleteProposalRun_eq hp, refundRun_eq, burnRun_eq]
+
+theorem sdkSubmitSteps_order : sdkSubmitSteps =
+    ["sdkCtx", "assertMetadata", "assertSummary", "assertTitle", "msgsStr0", "msgLoop", "nextId", "getParams",
+     "submitTime=blockTime", "depositPeriod=maxDepositPeriod", "newProposal(depositEnd=submitTime+depositPeriod)", "setProposal",
+     "inactiveQueueSet:depositEnd", "hooks", "event", "return"] := rfl
+
+theorem sdkSubmitLoop_order : sdkSubmitLoop =
+    ["msgsStr+=", "validateBasic", "getSigners", "oneSigner", "signerIsGov", "handler", "routable", "legacyDryRun"] := rfl
+
+/-- the one-piece form of `submit` the invariants are proved about -/
+def submitSpec (s : State) (proposer : Addr) (msgs : List Msg) (initial : Nat) (expedited : Bool) : Except String State :=
+  if !checkMsgs msgs then .error "err:type" else
+  if s.params.minInitialDepositRatio != 0 &&
+      (initial == 0 || initial < mulRound (defaultMin s expedited) s.params.minInitialDepositRatio) then
+    .error "err:small" else
+  if !msgs.all (·.wellFormed) then .error "err:msg" else
+  let p : Proposal := { id := s.nextId, msgs := msgs, proposer := proposer, status := .deposit, total := 0,
+                        depositEnd := s.time + s.params.maxDepositPeriod, votingStart := 0, votingEnd := 0,
+                        expedited := expedited }
+  let s1 := { s with nextId := s.nextId + 1, props := s.props ++ [p],
+                     inactive := insertQ (p.depositEnd, p.id) s.inactive }
+  addDeposit s1 p.id proposer initial
+
+/-- **`Keeper.SubmitProposal` of the SDK, statement by statement**: the messages are checked, the id is the next proposal id,
+the deposit end is the block time + `MaxDepositPeriod`, the proposal is stored and entered into the inactive queue under
+that deposit end -/
+theorem sdkSubmitRun_eq (s : State) (proposer : Addr) (msgs : List Msg) (expedited : Bool) :
+    sdkSubmitRun s proposer msgs expedited =
+      if !msgs.all (·.wellFormed) then .error "err:msg" else
+      .ok ({ s with nextId := s.nextId + 1,
+                    props := s.props ++ [{ id := s.nextId, msgs := msgs, proposer := proposer, status := .deposit, total := 0,
+                                           depositEnd := s.time + s.params.maxDepositPeriod, votingStart := 0, votingEnd := 0,
+                                           expedited := expedited }],
+                    inactive := insertQ (s.time + s.params.maxDepositPeriod, s.nextId) s.inactive }, s.nextId) := by
+  unfold sdkSubmitRun
+  rw [sdkSubmitSteps_order]
+  have hck : submitLoopChecks = true := rfl
+  have n : ∀ (l : SubmitLocals) (t : String),
+      t = "sdkCtx" ∨ t = "assertMetadata" ∨ t = "assertSummary" ∨ t = "assertTitle" ∨ t = "msgsStr0" ∨ t = "getParams" ∨
+      t = "hooks" ∨ t = "event" ∨ t = "return" → submitStepI proposer msgs expedited l t = l := by
+    intro l t ht
+    rcases ht with rfl | rfl | rfl | rfl | rfl | rfl | rfl | rfl | rfl <;>
+      (simp only [submitStepI]; split <;> rfl)
+  simp only [List.foldl]
+  rw [n _ "sdkCtx" (by simp), n _ "assertMetadata" (by simp), n _ "assertSummary" (by simp), n _ "assertTitle" (by simp),
+    n _ "msgsStr0" (by simp)]
+  have eLoop : submitStepI proposer msgs expedited { s := s } "msgLoop" =
+      (if submitLoopChecks && !msgs.all (·.wellFormed) then { s := s, err := some "err:msg" } else { s := s }) := rfl
+  rw [eLoop, hck]
+  by_cases hw : msgs.all (·.wellFormed) = true
+  · simp only [hw, Bool.not_true, Bool.and_false, Bool.false_eq_true, if_false]
+    have e1 : submitStepI proposer msgs expedited { s := s } "nextId" =
+        { s := { s with nextId := s.nextId + 1 }, id := s.nextId } := rfl
+    rw [e1, n _ "getParams" (by simp)]
+    have e2 : ∀ (s0 : State) (i : Nat), submitStepI proposer msgs expedited { s := s0, id := i } "submitTime=blockTime" =
+        { s := s0, id := i, submitTime := s0.time } := fun _ _ => rfl
+    have e3 : ∀ (s0 : State) (i t : Nat), submitStepI proposer msgs expedited { s := s0, id := i, submitTime := t }
+        "depositPeriod=maxDepositPeriod" = { s := s0, id := i, submitTime := t, depositPeriod := s0.params.maxDepositPeriod } :=
+      fun _ _ _ => rfl
+    have e4 : ∀ (s0 : State) (i t d : Nat), submitStepI proposer msgs expedited { s := s0, id := i, submitTime := t, depositPeriod := d }
+        "newProposal(depositEnd=submitTime+depositPeriod)" =
+        { s := s0, id := i, submitTime := t, depositPeriod := d,
+          p := some { id := i, msgs := msgs, proposer := proposer, status := .deposit, total := 0, depositEnd := t + d,
+                      votingStart := 0, votingEnd := 0, expedited := expedited } } := fun _ _ _ _ => rfl
+    have e5 : ∀ (s0 : State) (i t d : Nat) (q : Proposal),
+        submitStepI proposer msgs expedited { s := s0, id := i, submitTime := t, depositPeriod := d, p := some q } "setProposal" =
+        { s := { s0 with props := s0.props ++ [q] }, id := i, submitTime := t, depositPeriod := d, p := some q } :=
+      fun _ _ _ _ _ => rfl
+    have e6 : ∀ (s0 : State) (i t d : Nat) (q : Proposal),
+        submitStepI proposer msgs expedited { s := s0, id := i, submitTime := t, depositPeriod := d, p := some q }
+          "inactiveQueueSet:depositEnd" =
+        { s := { s0 with inactive := insertQ (q.depositEnd, q.id) s0.inactive }, id := i, submitTime := t, depositPeriod := d,
+          p := some q } := fun _ _ _ _ _ => rfl
+    rw [e2, e3, e4, e5, e6, n _ "hooks" (by simp), n _ "event" (by simp), n _ "return" (by simp)]
+  · have hw' : msgs.all (·.wellFormed) = false := by simpa using hw
+    simp only [hw', Bool.not_false, Bool.and_true, if_true]
+    have stay : ∀ t, submitStepI proposer msgs expedited { s := s, err := some "err:msg" } t = { s := s, err := some "err:msg" } := by
+      intro t; simp [submitStepI]
+    simp only [stay]
+
+/-- **`MsgSubmitProposal` through the interpreted SDK `SubmitProposal` is the one-piece `submit` of the invariants** -/
+theorem submit_eq (s : State) (proposer : Addr) (msgs : List Msg) (initial : Nat) (expedited : Bool) :
+    submit s proposer msgs initial expedited = submitSpec s proposer msgs initial expedited := by
+  unfold submit submitSpec
+  rw [sdkSubmitRun_eq]
+  by_cases h1 : (!checkMsgs msgs) = true
+  · simp only [h1, if_true]
+  · simp only [h1, Bool.false_eq_true, if_false]
+    split
+    · rfl
+    · by_cases hw : (!msgs.all (·.wellFormed)) = true
+      · simp only [hw, if_true]
+      · simp only [hw, Bool.false_eq_true, if_false]
+
+theorem sdkAddVoteSteps_order : sdkAddVoteSteps =
+    ["inVotingPeriod=VotingPeriodProposals.Has", "rejectUnlessVoting", "assertMetadata", "optionsValid", "newVote", "votesSet",
+     "hooks", "sdkCtx", "event", "return"] := rfl
+
+/-- the one-piece form of `vote` the invariants are proved about -/
+def voteSpec (s : State) (pid : Nat) (voter : Addr) (opts : List (Opt × Nat)) : Except String State :=
+  if !optsValid opts then .error "err:vote" else
+  match findProp s.props pid with
+  | none => .error "err:inactive"
+  | some p =>
+    if p.status == .voting then .ok { s with votes := setVote s.votes ⟨pid, voter, opts⟩ } else .error "err:inactive"
+
+/-- **`AddVote` of the SDK, statement by statement, is the model's vote**: refused unless the proposal is in its voting period,
+then `Votes.Set` under (proposal, voter) -/
+theorem vote_eq (s : State) (pid : Nat) (voter : Addr) (opts : List (Opt × Nat)) : vote s pid voter opts = voteSpec s pid voter opts := by
+  unfold vote voteSpec addVoteRun
+  rw [sdkAddVoteSteps_order]
+  by_cases ho : (!optsValid opts) = true
+  · simp only [ho, if_true]
+  · simp only [ho, Bool.false_eq_true, if_false]
+    have e1 : addVoteStep pid voter opts (s, false, none) "inVotingPeriod=VotingPeriodProposals.Has" =
+        (s, (match findProp s.props pid with | some p => p.status == .voting | none => false), none) := rfl
+    have n : ∀ (acc : State × Bool × Option String) (t : String),
+        t = "assertMetadata" ∨ t = "optionsValid" ∨ t = "newVote" ∨ t = "hooks" ∨ t = "sdkCtx" ∨ t = "event" ∨ t = "return" →
+        addVoteStep pid voter opts acc t = acc := by
+      intro acc t ht
+      obtain ⟨a, b, c⟩ := acc
+      rcases ht with rfl | rfl | rfl | rfl | rfl | rfl | rfl <;> (simp only [addVoteStep]; split <;> rfl)
+    have e2 : ∀ (b : Bool), addVoteStep pid voter opts (s, b, none) "rejectUnlessVoting" =
+        (if !b then (s, b, some "err:inactive") else (s, b, none)) := fun _ => rfl
+    have e3 : ∀ (b : Bool), addVoteStep pid voter opts (s, b, none) "votesSet" =
+        ({ s with votes := setVote s.votes ⟨pid, voter, opts⟩ }, b, none) := fun _ => rfl
+    have stay : ∀ (b : Bool) (t : String), addVoteStep pid voter opts (s, b, some "err:inactive") t = (s, b, some "err:inactive") :=
+      fun _ _ => by simp [addVoteStep]
+    simp only [List.foldl]
+    rw [e1, e2]
+    cases hp : findProp s.props pid with
+    | none => simp only [Bool.not_false, if_true, stay]
+    | some p =>
+      simp only
+      by_cases hv : (p.status == .voting) = true
+      · simp only [hv, Bool.not_true, Bool.false_eq_true, if_false, if_true]
+        rw [n _ "assertMetadata" (by simp), n _ "optionsValid" (by simp), n _ "newVote" (by simp), e3, n _ "hooks" (by simp),
+          n _ "sdkCtx" (by simp), n _ "event" (by simp), n _ "return" (by simp)]
+      · have hv' : (p.status == .voting) = false := by simpa using hv
+        simp only [hv', Bool.not_false, if_true, stay, Bool.false_eq_true, if_false]
+
 end FxVerif.Proofs.C15
